@@ -403,10 +403,12 @@ def _polyroots_semantics(ctx, mdl):
     fi = mdl.func('polytools.polyroots')
     for deg in (3, 2, 1):
         _polyroots_filters(ctx, mdl, fi, deg)
+    for deg in (2, 1):
+        _polyroots_filters(ctx, mdl, fi, deg, as_poly1d=True)      # the same polynomials handed over as numpy.poly1d (len() is then the ORDER)
     _polyroots01_rules(ctx, mdl)
 
 
-def _polyroots_filters(ctx, mdl, fi, deg):
+def _polyroots_filters(ctx, mdl, fi, deg, as_poly1d=False):
     roots = [Rat.csym('rho%d' % i) for i in range(deg)]
     # the monic polynomial with these roots, as the coefficient list (highest power first) the function is given
     coeffs = [Rat.const(1)]
@@ -425,11 +427,20 @@ def _polyroots_filters(ctx, mdl, fi, deg):
     def th(it):
         from svtstatic.values import PyFunc
         called['roots'] = False
+        called.pop('isclose_extra', None)
         it.ext_hooks['numpy.roots'] = lambda it2, a, k: called.update(roots=True) or list(roots)
         # the package's isclose (|a-b| < atol + rtol|b|) is modelled like numpy.isclose: an approximate-equality label
         from svtstatic import builtins_model as bm
-        it.call_hooks['misctools.isclose'] = lambda it2, a, k: bm.call_ext(it2, 'numpy.isclose', a, k)
-        r = it.call(it.closure_of('polytools.polyroots'), [list(coeffs)], {'realroots': True, 'condition': PyFunc(cond_hook, 'cond')})
+
+        def isclose_hook(it2, a, k):
+            # the closeness of two roots depends on those two roots (and the two standard tolerances) only
+            odd = sorted(set(k) - {'rtol', 'atol'}) + (['a third positional argument'] if len(a) > 2 else [])
+            if odd:
+                called['isclose_extra'] = odd
+            return bm.call_ext(it2, 'numpy.isclose', a[:2], {x: y for x, y in k.items() if x in ('rtol', 'atol')})
+        it.call_hooks['misctools.isclose'] = isclose_hook
+        arg = PolyT(list(coeffs)) if as_poly1d else list(coeffs)
+        r = it.call(it.closure_of('polytools.polyroots'), [arg], {'realroots': True, 'condition': PyFunc(cond_hook, 'cond')})
         facts = []
         for z in roots:
             # modulo the equalities the path has established (a coefficient that was tested against zero relates the roots)
@@ -440,10 +451,12 @@ def _polyroots_filters(ctx, mdl, fi, deg):
                 sgn, key, _ = _canon_diff(zi)
                 real_ = it.trace.signs.get('close:' + key)
             facts.append((real_, path_sign(it, zr)))
-        return list(r), facts, it, called['roots']
+        return list(r), facts, it, called['roots'], called.get('isclose_extra')
 
     def judge(v):
         ok_, d_ = judge0(v[:3])
+        if ok_ is True and v[4]:
+            return False, 'the closeness test of two roots is given %s: whether two roots are merged depends on something else than the two roots' % v[4]
         if ok_ is False and not v[3] and deg > 1:
             # the roots were not taken from numpy.roots: a closed form of degree >= 2 involves radicals the normal form cannot compare
             return None, 'own root formula instead of numpy.roots (degree %d): not comparable - %s' % (deg, d_)
@@ -486,7 +499,7 @@ def _polyroots_filters(ctx, mdl, fi, deg):
         return False, 'returns roots %s; expected the real parts of roots %s (real, satisfying the condition, one per cluster)' % (
             [short(g, 20) for g in got], survivors)
     # generic position: no coefficient of the polynomial vanishes (vanishing leading coefficients are the subject of the hand-over rule)
-    Obligation(ctx, 'R19.3').run(fi, 'polyroots(realroots=True, condition) on the monic polynomial with %d symbolic root(s)' % deg, th, judge,
+    Obligation(ctx, 'R19.3').run(fi, 'polyroots(realroots=True, condition) on the monic polynomial with %d symbolic root(s)%s' % (deg, ' given as poly1d' if as_poly1d else ''), th, judge,
                                  opts={'presign': [(c_, '-+') for c_ in coeffs[1:]]})
 
 
